@@ -814,6 +814,22 @@ func (wd *world) audit(where string) error {
 		wd.cs.Class("audit=while-wallet-lags (no Balance comparison)")
 	} else if !bal.Spendable.Equals(soSum) {
 		return fmt.Errorf("%s: Balance().Spendable = %v but Σ SpendableOutputs() = %v (model %v)", where, bal.Spendable, soSum, v.sumS)
+	} else {
+		// the other three figures of the same call, against the model
+		var confirmed, immature, unconfirmed types.Currency
+		for _, u := range v.snap.U {
+			if u.MaturityHeight > v.snap.tip.Height {
+				immature = immature.Add(u.SiacoinOutput.Value)
+			} else {
+				confirmed = confirmed.Add(u.SiacoinOutput.Value)
+			}
+		}
+		for _, e := range v.snap.E {
+			unconfirmed = unconfirmed.Add(e.SiacoinOutput.Value)
+		}
+		if !bal.Confirmed.Equals(confirmed) || !bal.Immature.Equals(immature) || !bal.Unconfirmed.Equals(unconfirmed) {
+			return fmt.Errorf("%s: Balance() = confirmed %v / immature %v / unconfirmed %v, the model has %v / %v / %v", where, bal.Confirmed, bal.Immature, bal.Unconfirmed, confirmed, immature, unconfirmed)
+		}
 	}
 	if probed {
 		if probeErr != nil {
@@ -1550,7 +1566,12 @@ func (wd *world) opSubmit(op Op, step int) error {
 		if !wd.v1Allowed() {
 			must, why = false, "v1-after-require-height"
 		}
-		wd.w.SignTransaction(&r.v1, r.toSignV1, types.CoveredFields{WholeTransaction: true})
+		if modInt(op.B, 3) == 1 {
+			wd.cs.Class("submit=v1-explicit-covered-fields")
+			wd.w.SignTransaction(&r.v1, r.toSignV1, wallet.ExplicitCoveredFields(r.v1))
+		} else {
+			wd.w.SignTransaction(&r.v1, r.toSignV1, types.CoveredFields{WholeTransaction: true})
+		}
 		set := append(wd.poolAncestorsV1(r.v1), r.v1)
 		_, subErr = wd.cm.AddPoolTransactions(set)
 	default:
